@@ -369,6 +369,11 @@ CLAUSES = [
     ),
 ]
 
+from ..names_check import names_clause  # noqa: E402
+
+if names_clause("C18") is not None:
+    CLAUSES.append(names_clause("C18"))
+
 PROPERTY = Property(
     id="C18",
     level="exploration",
